@@ -230,11 +230,17 @@ class Encoder:
         out = {}
         for lang, L in t.items():
             items = []
+            seen = set()
             for k, v in L.items():
                 if k in R.TEXT:
                     items.append((R.TEXT[k], v))
                 else:
                     cid = self.comp_id(json.loads(k))
+                    # two spellings can denote the SAME component identifier ([-1] and [" "] both encode to [h'20']):
+                    # such a description is ambiguous (a CBOR map cannot hold both) - no reference encoding exists
+                    if enc(cid) in seen:
+                        raise Unsupported("ambiguous description: two text keys denote the same component identifier")
+                    seen.add(enc(cid))
                     items.append((cid, {R.TEXT_COMPONENT[a]: b for a, b in v.items()}))
             out[lang] = Pairs(items)
         return out
